@@ -40,6 +40,8 @@ type c08Scenario struct {
 
 var c08Causes = []string{
 	"sshd-pipe-eof", "audit-pipe-eof", "malformed-audit-line",
+	// end-of-stream in the middle of a record (the writer died mid-line)
+	"sshd-pipe-eof-mid-record", "audit-pipe-eof-mid-record",
 	"write-failure-on-sshd-line",
 	"sshd-path-regular-file", "sshd-path-missing", "sshd-path-directory",
 	"audit-path-regular-file", "audit-path-missing", "audit-path-directory",
@@ -94,9 +96,11 @@ func startPump(path string, d *daemon, ses string, pid int) (*pump, error) {
 				// hand-over buffer between them really fills up
 				buf = append([]byte(vlib.AuUser("USER_START", vlib.BaseTSms+int64(seq), uint32(seq), pid, ses, "PAM:session_open", "success")), '\n')
 			}
+			last := false
 			select {
 			case l := <-p.inject:
 				buf = []byte(l)
+				last = !strings.HasSuffix(l, "\n") // an unterminated record is the last thing this writer says
 			default:
 			}
 			for len(buf) > 0 {
@@ -114,6 +118,9 @@ func startPump(path string, d *daemon, ses string, pid int) (*pump, error) {
 				}
 			}
 			atomic.AddInt64(&p.lines, 1)
+			if last {
+				return
+			}
 		}
 	}()
 	return p, nil
@@ -187,8 +194,8 @@ func c08Run(r *vlib.Run, sc c08Scenario, idx int) (evaluated bool) {
 		}
 		return f
 	}
-	needS := sc.Cause == "sshd-pipe-eof" || sc.Cause == "write-failure-on-sshd-line"
-	needA := sc.Cause == "audit-pipe-eof" || sc.Cause == "malformed-audit-line"
+	needS := strings.HasPrefix(sc.Cause, "sshd-pipe-eof") || sc.Cause == "write-failure-on-sshd-line"
+	needA := strings.HasPrefix(sc.Cause, "audit-pipe-eof") || sc.Cause == "malformed-audit-line"
 	if !strings.HasPrefix(sc.Cause, "sshd-path") && (!sc.NoWriter || needS) {
 		ws = openHealthy(d.sshdPath)
 	}
@@ -279,6 +286,26 @@ func c08Run(r *vlib.Run, sc c08Scenario, idx int) (evaluated bool) {
 		}
 		ws.Close()
 		ws = nil
+	case "sshd-pipe-eof-mid-record":
+		if ws == nil {
+			r.Inconclusive(label + ": sshd pipe not opened")
+			return false
+		}
+		io.WriteString(ws, "4243 Accepted password for mid from 10.0.0.2 po")
+		ws.Close()
+		ws = nil
+	case "audit-pipe-eof-mid-record":
+		part := vlib.AuUser("USER_ACCT", vlib.BaseTSms+5, 5, 1, "4294967295", "PAM:accounting", "success")
+		part = part[:len(part)*2/3]
+		if pm != nil {
+			pm.inject <- part
+			<-pm.done
+			pm = nil
+		} else if wa != nil {
+			io.WriteString(wa, part)
+			wa.Close()
+			wa = nil
+		}
 	case "audit-pipe-eof":
 		if pm != nil {
 			pm.halt()
@@ -357,7 +384,7 @@ func checkC08(r *vlib.Run) int {
 		for _, c := range c08Causes {
 			scs = append(scs, c08Scenario{Cause: c})
 		}
-		for _, c := range []string{"SIGTERM", "malformed-audit-line", "sshd-pipe-eof", "SIGINT"} {
+		for _, c := range []string{"SIGTERM", "malformed-audit-line", "sshd-pipe-eof", "SIGINT", "audit-pipe-eof-mid-record"} {
 			scs = append(scs, c08Scenario{Cause: c, Saturated: true})
 		}
 		for _, c := range c08Causes {
@@ -422,7 +449,7 @@ func checkC08(r *vlib.Run) int {
 	r.Assumptions = []string{"'saturated' is observed: the pumping writer's write(2) hit EAGAIN at least five times before the fault is injected, otherwise the scenario is inconclusive",
 		"'does not exit' is a violation only if the SIGQUIT dump shows main parked in errgroup.Wait and a worker parked; otherwise inconclusive",
 		"signals may end the process with any status; failures must give a non-zero status"}
-	return r.Finish(evals, dist.Len(), "built daemon x failure cause {sshd pipe EOF, audit pipe EOF, malformed audit line, event write failure via /dev/full, sshd/audit path is a regular file / missing / a directory, SIGTERM, SIGINT} x load {idle with writers attached, idle with the other pipe still waiting for its writer, saturated by a pumping writer} x log level {error, debug}, six causes with the HTTP health/metrics server enabled and three of them with a scrape client that never reads its answers; thorough: x3 and with the -race build; distinct = (cause, load) pairs evaluated")
+	return r.Finish(evals, dist.Len(), "built daemon x failure cause {sshd pipe EOF, audit pipe EOF, either pipe's EOF in the middle of a record, malformed audit line, event write failure via /dev/full, sshd/audit path is a regular file / missing / a directory, SIGTERM, SIGINT} x load {idle with writers attached, idle with the other pipe still waiting for its writer, saturated by a pumping writer} x log level {error, debug}, six causes with the HTTP health/metrics server enabled and three of them with a scrape client that never reads its answers; thorough: x3 and with the -race build; distinct = (cause, load) pairs evaluated")
 }
 
 func lastLineOf(s string) string {
